@@ -568,6 +568,28 @@ func (e limitsEngine) checkBudget(c *LimitsCase, st *Stats, ref *limRun, n, N in
 			st.Inc("reach_exhaustion_swallowed")
 		}
 	}
+	// 5a. the smallest possible top-level evaluations (a literal, a symbol)
+	// are top-level evaluations too: each starts with a full budget
+	if n >= 2 {
+		for _, probe := range []struct {
+			what string
+			f    func() *lisp.LVal
+			want string
+		}{
+			{"Eval of the literal 7", func() *lisp.LVal { return run.w.Env.Eval(lisp.Int(7)) }, "7"},
+			{"Eval of the symbol true", func() *lisp.LVal { return run.w.Env.Eval(lisp.Symbol("true")) }, "true"},
+			{"EvalContext of the literal 7", func() *lisp.LVal { return run.w.Env.EvalContext(NewSimCtx(run.w), lisp.Int(7)) }, "7"},
+		} {
+			o := run.w.Call(probe.f)
+			st.Runs++
+			if o.Result() != probe.want {
+				return Violf("budget-not-refilled", "after P under budget %d (exhausted=%v), %s gave %q", n, exhausted, probe.what, o.Result())
+			}
+			if o.Steps != 1 {
+				return Violf("budget-not-refilled", "after P under budget %d, %s reports %d steps, want 1", n, probe.what, o.Steps)
+			}
+		}
+	}
 	// 5. refill: the next top-level evaluation starts with a full budget
 	if len(c.Forms2) > 0 {
 		twin, err := c.run(c.Knobs, n, 0)
